@@ -32,3 +32,7 @@
  (assert (unfold_natval p 0 (+ k 1))) (assert (unfold_natval x ox (+ k 1)))
  (assert (unfold_scaled (natval x ox xl) (- (+ k 1) xl))) (assert (unfold_scaled (natval x ox xl) (- k xl)))
  (assert (not (natval_pad x ox xl p (+ k 1)))) (check-sat) (pop)
+; natval_prefix_le: base m = k, step m -> m+1 (uses natval >= 0 from natval_lt_pow10)
+(push) (assert (not (natval_prefix_le x ox k k))) (check-sat) (pop)
+(push) (assert (<= 0 k)) (assert (<= k m)) (assert (natval_prefix_le x ox k m)) (assert (unfold_natval x ox (+ m 1))) (assert (natval_lt_pow10 x ox m))
+ (assert (not (natval_prefix_le x ox k (+ m 1)))) (check-sat) (pop)
